@@ -508,6 +508,12 @@ func (w *kworld) fullTick() {
 // hook is the AssignSplits hook: the observation point of the assignment oracle.
 func (w *kworld) hook(inc int) func(map[string][]*workerpb.SourceSplit) {
 	return func(as map[string][]*workerpb.SourceSplit) {
+		if w.sc.Ticker && w.c.Index%2 == 0 {
+			// the job's AssignSplits posts to its task queue and can block for a while; with the real discovery
+			// ticker (2 ms) running, ticks fall into the call
+			time.Sleep(8 * time.Millisecond)
+			w.c.Feat("slow_assign_hook_calls", 1)
+		}
 		var rs []string
 		for r := range as {
 			rs = append(rs, r)
